@@ -1035,6 +1035,31 @@ def inline_temporaries(func, known_locals):
                     if not (isinstance(root, ast.Name)
                             and root.id not in local_names):
                         fragile = True
+            if fragile and isinstance(v, ast.Attribute):
+                # a plain alias `x = self.a.b`: safe wherever neither the
+                # chain nor a prefix of it is assigned in this function
+                chain = v
+                pure = True
+                while isinstance(chain, ast.Attribute):
+                    chain = chain.value
+                if not isinstance(chain, ast.Name):
+                    pure = False
+                if pure:
+                    txt = ast.unparse(v)
+                    prefixes = set()
+                    c2 = v
+                    while isinstance(c2, ast.Attribute):
+                        prefixes.add(ast.unparse(c2))
+                        c2 = c2.value
+                    prefixes.add(ast.unparse(c2))
+                    clash = False
+                    for x in ast.walk(func):
+                        if isinstance(x, (ast.Attribute, ast.Name)) and \
+                                isinstance(x.ctx, (ast.Store, ast.Del)) and \
+                                ast.unparse(x) in prefixes:
+                            clash = True
+                    if not clash:
+                        fragile = False
             if fragile:
                 last = None
                 for j in range(idx + 1, len(holder)):
